@@ -535,6 +535,112 @@ func (g *gen) genWillX(n int) {
 	}
 }
 
+// a string whose last bytes are not ASCII: a multi-byte rune, a rune cut short, stray continuation bytes — placed so that it
+// ends at, just before or just after a length a renderer might cut at (16, 32, 64, 128, 256), or anywhere
+func (g *gen) utf8Tail() []byte {
+	n := 0
+	if g.chance(0.6) {
+		n = []int{16, 32, 64, 128, 256}[g.r.Intn(5)] + g.r.Intn(5) - 2
+	} else {
+		n = 1 + g.r.Intn(300)
+	}
+	tails := [][]byte{{0xc3, 0xa9}, {0xe2, 0x82, 0xac}, {0xf0, 0x9f, 0x98, 0x80}, {0x80}, {0x80, 0xbf, 0x80}, {0xe2, 0x82}, {0xc3}, {0xff}, {0xf0, 0x9f},
+		{0xef, 0xbf, 0xbd}, {0xed, 0xa0, 0x80}, {0xc0, 0x80}}
+	t := tails[g.r.Intn(len(tails))]
+	if g.chance(0.3) {
+		// nothing but continuation bytes from some point on
+		t = bytesRepeat(byte(0x80+g.r.Intn(0x40)), 1+g.r.Intn(8))
+	}
+	if n < len(t) {
+		n = len(t)
+	}
+	out := make([]byte, 0, n)
+	for i := 0; i < n-len(t); i++ {
+		out = append(out, byte('a'+g.r.Intn(26)))
+	}
+	return append(out, t...)
+}
+
+// packets of every type whose string and binary fields end in non-ASCII bytes (C19: String and Dump are total), built
+// through the API and decoded from their own frame
+func (g *gen) genUTF8(n int) {
+	for c := 0; c < n; c++ {
+		kind := apiKinds[g.r.Intn(len(apiKinds))]
+		g.emit("RESET")
+		g.emit("NOTE case=utf8 kind=%s", kind)
+		g.emit("NEW p %s", kind)
+		did := 0
+		for _, st := range setters[kind] {
+			switch {
+			case st.typ == 'h' && g.chance(0.6):
+				g.emit("SET p %s %s", st.name, hxd(g.utf8Tail()))
+				did++
+			case st.typ == 'p' && g.chance(0.6):
+				g.emit("SET p %s %s %s", st.name, hxd(g.utf8Tail()), hxd(g.utf8Tail()))
+				did++
+			}
+		}
+		if kind == "Subscribe" {
+			g.emit("SET p AddFilters %s %d", hxd(g.utf8Tail()), g.r.Intn(3))
+			did++
+		}
+		if kind == "Connect" && g.chance(0.5) {
+			g.emit("NEW w Publish")
+			g.emit("SET w SetTopicName %s", hxd(g.utf8Tail()))
+			g.emit("SET w SetPayload %s", hxd(g.utf8Tail()))
+			g.emit("SET p SetWill w")
+			did++
+		}
+		if did == 0 {
+			c--
+			continue
+		}
+		g.emit("STR p")
+		g.emit("DUMP p")
+		g.emit("ENC p")
+		g.emit("RDP p q")
+		g.emit("STR q")
+		g.emit("DUMP q")
+	}
+}
+
+// a will that is changed after it was attached (outside C01's domain, inside C10's "every packet", C11's and C19's):
+// SetWill keeps the pointer, so the CONNECT is written from whatever the PUBLISH holds at that moment — still one
+// complete frame with a truthful size, the same bytes every time until the next change
+func (g *gen) genWillMod(n int) {
+	for c := 0; c < n; c++ {
+		g.emit("RESET")
+		g.emit("NOTE case=willmod kind=Connect")
+		g.willMessage("w")
+		g.emit("NEW p Connect")
+		g.scalarSetters("p", "Connect", 0.3, false)
+		g.emit("SET p SetWill w")
+		g.emit("VIEW p")
+		g.emit("ENC p")
+		g.emit("STR p")
+		for k := 1 + g.r.Intn(4); k > 0; k-- {
+			ss := setters["Publish"]
+			st := ss[g.r.Intn(len(ss))]
+			switch g.r.Intn(6) {
+			case 0:
+				g.emit("SET w SetQoS %d", g.r.Intn(3))
+			default:
+				g.emit("SET w %s %s", st.name, g.arg(st.typ, g.chance(0.2)))
+			}
+			g.emit("VIEW p")
+			g.emit("ENC p")
+			g.emit("STR p")
+			if g.chance(0.5) {
+				g.emit("DUMP p")
+				g.emit("ENC p")
+			}
+			if g.chance(0.4) {
+				g.emit("WR p accept=%d err=E%d", g.wrAccept(), 1+g.r.Intn(9))
+			}
+		}
+	}
+}
+
 func (g *gen) genHist(n int) {
 	for c := 0; c < n; c++ {
 		kind := apiKinds[g.r.Intn(len(apiKinds))]
@@ -671,6 +777,10 @@ func runGen(class string, seed int64, n int, w *bufio.Writer) {
 		g.genMalformed(n)
 	case "biglist":
 		g.genBigList(n)
+	case "willmod":
+		g.genWillMod(n)
+	case "utf8":
+		g.genUTF8(n)
 	case "nonmin":
 		g.genNonMin(n)
 	case "wfrd":
